@@ -58,6 +58,7 @@ type world struct {
 	sm2A, sm2B, sm2C *sm2.PrivateKey
 	nistP256         *sm2.PrivateKey // sm2.PrivateKey on a NIST curve: legacy code paths
 	nistP521         *sm2.PrivateKey
+	nistP384         *sm2.PrivateKey
 	ecdsaP256        *ecdsa.PrivateKey
 	rsa1, rsa2       *rsa.PrivateKey
 
@@ -187,6 +188,7 @@ func buildWorld(seed uint64) (w *world, err error) {
 	// sm2.PrivateKey over a NIST curve (the embedded ecdsa key is assigned, as the package's own tests do)
 	w.nistP256 = &sm2.PrivateKey{PrivateKey: *ecKey(elliptic.P256(), scalarC)}
 	w.nistP521 = &sm2.PrivateKey{PrivateKey: *ecKey(elliptic.P521(), scalarC)}
+	w.nistP384 = &sm2.PrivateKey{PrivateKey: *ecKey(elliptic.P384(), scalarC)}
 	w.rsa1, w.rsa2 = rsaKey(rsa1024PEM), rsaKey(rsa2048PEM)
 
 	w.buildSM2()
@@ -250,9 +252,11 @@ func (w *world) buildSM2() {
 		must("legacy encrypt asn1 "+v.name, err)
 		w.add("sm2.legacy."+v.name+".ct.asn1", ct)
 	}
-	sigL, err := w.nistP256.Sign(r, w.digest, nil)
+	// legacy signature on P-384: with the purego tag Go 1.23's crypto/elliptic P-256 "Inverse" fast path, which the
+	// legacy signer and verifier use, is unimplemented and panics inside the standard library for every input
+	sigL, err := w.nistP384.Sign(r, w.digest, nil)
 	must("legacy sign", err)
-	w.add("sm2.legacy.p256.sig", sigL)
+	w.add("sm2.legacy.p384.sig", sigL)
 
 	// key agreement confirmation values
 	ini, err := sm2.NewKeyExchange(w.sm2A, &w.sm2B.PublicKey, w.uid, w.uidB, 32, true)
